@@ -1065,6 +1065,28 @@ theorem C05_newFilesX_conservative_tight :
     (newFilesX [x fa [97] [] [], x fb [98] [0] [], x fc [99] [] []]).toOption.isSome = true ∧
     (newFiles [fa, fb, fc]).toOption = none := by decide
 
+/-- `C05_success_is_complete` lifted to the extended acceptance, for targets whose descriptor set uses none of the
+    extended features: whatever a successful conversation delivers is (the file part of) a sub-set `ys` of the target's
+    extended files that `newFilesX` accepts with exactly the delivered registry.
+    PARTIAL.  The full statement drops `hp` for `import public`:
+      (hwfx : newFilesX xs = .ok (xs.map (·.file))) (hnoweak : ∀ x ∈ xs, x.weak = []) … ⊢ same conclusion.
+    Missing lemma (only the `typesResolveXB` clause needs it; the other eight clauses restrict to sub-sets as in
+    `newFiles_ok`):  for `ys ⊆ xs` with unique names and `closedXB ys`,  `y ∈ ys → n ∈ pubReach xs xs.length y.file.deps
+    → n ∈ pubReach ys ys.length y.file.deps`  — public-import reachability is computed inside any import-closed
+    sub-set, which needs (a) `pubReach` monotone/stable past its fixpoint and (b) a pigeonhole bound showing fuel
+    `ys.length` already reaches the fixpoint over `ys`. -/
+theorem C05_success_is_complete_X_partial {cfg : Cfg} {xs : List XFile} {listed : List Name} {pol : Policy}
+    {sched : Sched} (hwf : WF cfg ⟨xs.map (·.file), listed⟩) (hp : ∀ x ∈ xs, plain x = true)
+    (hk : pkgConflictB xs = false) (hc : Conformant ⟨xs.map (·.file), listed⟩ pol)
+    (hno : cfg.onlyServices = false) {h : History} {ok : StreamOk}
+    (he : runStream (dedupFiles []) cfg pol sched = (h, .ok ok)) :
+    ∃ ys, ys.map (·.file) = ok.files ∧ (∀ y ∈ ys, y ∈ xs) ∧ newFilesX ys = .ok ok.files := by
+  have hk' := C05_success_is_complete hwf hc hno he
+  rcases exists_preimage (·.file) xs ok.files hk'.own with ⟨ys, hy, hs⟩
+  refine ⟨ys, hy, hs, ?_⟩
+  rw [C05_newFilesX_conservative ys (fun y h => hp y (hs y h)) (pkgConflict_sub hs hk), hy]
+  exact hk'.registry
+
 /-! ## Message types are those of THIS resolution's registry (history of resolutions; seeded regression C05-m11) -/
 
 /-- Whatever was resolved before (earlier polls of the same target with other definitions, other targets in the same
